@@ -166,7 +166,7 @@ func HarnessC10BaseGunShoot() {
 
 // G3: autotag(depth, path) is the prefix of path holding its first `depth` elements.
 func HarnessC10Autotag() {
-	n := int(vConcretize(vNondetInt("len", 0, 6)))
+	n := int(vConcretize(vNondetInt("len", 0, vHi(6, 8))))
 	path := vNondetString("p", n)
 	for i := 0; i < n; i++ {
 		vAssume(path[i] == '/' || path[i] == 'a' || path[i] == 'b')
